@@ -128,9 +128,9 @@ theorem unzip_map_pair {γ : Type} (σ : List Nat) (g : Nat → γ) :
 
 /-- without `shuffle` the settings are run as enumerated — by the pool when an executor was given or a pool asked for,
 else sequentially — and the results are returned as collected -/
-theorem coreRun_plain (leR : β → β → Bool) (σ : List Nat) (eg pa : Bool) (runSeq runExec : List α → List β)
+theorem coreRun_plain (leR : β → β → Bool) (σ : List Nat) (fl eg pa : Bool) (runSeq runExec : List α → List β)
     (settings : List α) :
-    Gen.coreRun leR σ false eg pa runSeq runExec settings
+    Gen.coreRun leR σ false fl eg pa runSeq runExec settings
       = .ok (settings, (if eg || pa then runExec else runSeq) settings) := by
   simp only [Gen.coreRun, Gen.Default.coreRun]
   cases eg <;> cases pa <;> rfl
@@ -138,9 +138,9 @@ theorem coreRun_plain (leR : β → β → Bool) (σ : List Nat) (eg pa : Bool) 
 /-- **shuffle**: with `shuffle`, the list that is run is the list of settings permuted by what `random.shuffle` did
 to `list(enumerate(settings))`, and the results are put back by sorting the (index, result) pairs on the index:
 exactly `Core.applyPerm` / `Core.runShuffled` — for every index list `σ` within range, every way of running -/
-theorem coreRun_shuffled (leR : β → β → Bool) (f : α → β) (settings : List α) (σ : List Nat) (d : α) (eg pa : Bool)
+theorem coreRun_shuffled (leR : β → β → Bool) (f : α → β) (settings : List α) (σ : List Nat) (d : α) (fl eg pa : Bool)
     (hσ : ∀ i ∈ σ, i < settings.length) (hne : σ ≠ []) :
-    Gen.coreRun leR σ true eg pa (List.map f) (List.map f) settings
+    Gen.coreRun leR σ true fl eg pa (List.map f) (List.map f) settings
       = .ok (applyPerm σ settings d, runShuffled f settings σ d) := by
   have hkey : (fun (a b : Nat × β) => Py.leNat a.1 b.1) = keyLE := by funext a b; rfl
   have hsort : ∀ l : List (Nat × β), l ≠ [] →
@@ -163,8 +163,8 @@ theorem coreRun_shuffled (leR : β → β → Bool) (f : α → β) (settings : 
   cases eg <;> cases pa <;> simp [runShuffled]
 
 /-- `shuffle` with nothing to run: Python has nothing to unpack in `enum, settings = zip(*enum_settings)` -/
-theorem coreRun_shuffled_empty (leR : β → β → Bool) (σ : List Nat) (eg pa : Bool) (runSeq runExec : List α → List β) :
-    Gen.coreRun leR σ true eg pa runSeq runExec [] = .error .valueError := by
+theorem coreRun_shuffled_empty (leR : β → β → Bool) (σ : List Nat) (fl eg pa : Bool) (runSeq runExec : List α → List β) :
+    Gen.coreRun leR σ true fl eg pa runSeq runExec [] = .error .valueError := by
   simp only [Gen.coreRun, Gen.Default.coreRun]
   have : Py.permute σ (Py.enumerate ([] : List α)) = [] := by
     induction σ with
@@ -182,9 +182,9 @@ def stExec : Strategy → Bool
 /-- **the linear run of the model is the translated run**: results of `Core.runLinear` are the results of the
 translated slice, and the list the translated slice hands to the runner is the model's call log before an executor
 reorders it -/
-theorem coreRun_runLinear (leR : β → β → Bool) (f : List Nat → β) (locs : List (List Nat)) (st : Strategy)
+theorem coreRun_runLinear (leR : β → β → Bool) (f : List Nat → β) (locs : List (List Nat)) (st : Strategy) (fl : Bool)
     (hwf : st.WF locs.length) (hne : locs ≠ []) :
-    Gen.coreRun leR ((stShuffle st).getD []) (stShuffle st).isSome (stExec st) false (List.map f) (List.map f) locs
+    Gen.coreRun leR ((stShuffle st).getD []) (stShuffle st).isSome fl (stExec st) false (List.map f) (List.map f) locs
       = .ok (match stShuffle st with | none => locs | some σ => applyPerm σ locs [], (runLinear f locs st).2) := by
   have hr : ∀ σ : List Nat, σ ~ List.range locs.length → (∀ i ∈ σ, i < locs.length) ∧ σ ≠ [] := by
     intro σ h
@@ -198,11 +198,11 @@ theorem coreRun_runLinear (leR : β → β → Bool) (f : List Nat → β) (locs
   | shuffled σ =>
     obtain ⟨h1, h2⟩ := hr σ hwf
     simp only [stShuffle, stExec, Option.getD_some, Option.isSome_some, runLinear]
-    exact coreRun_shuffled leR f locs σ [] false false h1 h2
+    exact coreRun_shuffled leR f locs σ [] fl false false h1 h2
   | shuffledExecutor σ π =>
     obtain ⟨h1, h2⟩ := hr σ hwf.1
     simp only [stShuffle, stExec, Option.getD_some, Option.isSome_some, runLinear]
-    exact coreRun_shuffled leR f locs σ [] true false h1 h2
+    exact coreRun_shuffled leR f locs σ [] fl true false h1 h2
 
 
 /-! ## dictionaries as association lists -/
@@ -654,7 +654,7 @@ def translated (g : List (String × Nat) → β) (nl : β → β) (pyNone : β) 
   match Gen.coreEnum s.caseArgs s.comboArgs (s.caseRows.getD [[]]) s.comboVals consts with
   | .error e => .error e
   | .ok (_, locs, settings) =>
-    match Gen.coreRun leR ((stShuffle st).getD []) (stShuffle st).isSome (stExec st) false
+    match Gen.coreRun leR ((stShuffle st).getD []) (stShuffle st).isSome flat (stExec st) false
         (fun l => okOr (Gen.coreRunSeq g l)) (fun l => okOr (Gen.coreRunExec g id l)) settings with
     | .error e => .error e
     | .ok (ran, results) =>
@@ -686,12 +686,12 @@ theorem translated_eq_core (g : List (String × Nat) → β) (nl : β → β) (p
   have hne' : s.locs.map (mkKws s.fnArgs consts) ≠ [] := by rw [hne]; simp
   have hlen : (s.locs.map (mkKws s.fnArgs consts)).length = s.locs.length := by simp
   -- the run
-  have hrun : Gen.coreRun leR ((stShuffle st).getD []) (stShuffle st).isSome (stExec st) false
+  have hrun : Gen.coreRun leR ((stShuffle st).getD []) (stShuffle st).isSome flat (stExec st) false
         (List.map g) (List.map g) (s.locs.map (mkKws s.fnArgs consts))
       = .ok ((match stShuffle st with | none => s.locs | some σ => applyPerm σ s.locs []).map (mkKws s.fnArgs consts),
              s.locs.map fun loc => g (mkKws s.fnArgs consts loc)) := by
     have hr : ∀ σ : List Nat, σ ~ List.range s.locs.length →
-        Gen.coreRun leR σ true (stExec st) false (List.map g) (List.map g) (s.locs.map (mkKws s.fnArgs consts))
+        Gen.coreRun leR σ true flat (stExec st) false (List.map g) (List.map g) (s.locs.map (mkKws s.fnArgs consts))
           = .ok ((applyPerm σ s.locs []).map (mkKws s.fnArgs consts), s.locs.map fun loc => g (mkKws s.fnArgs consts loc)) := by
       intro σ h
       have hin : ∀ i ∈ σ, i < (s.locs.map (mkKws s.fnArgs consts)).length := by
@@ -699,7 +699,7 @@ theorem translated_eq_core (g : List (String × Nat) → β) (nl : β → β) (p
       have hσne : σ ≠ [] := by
         intro h0; subst h0
         have := h.length_eq; simp [hne] at this
-      rw [coreRun_shuffled leR g _ σ (mkKws s.fnArgs consts []) (stExec st) false hin hσne,
+      rw [coreRun_shuffled leR g _ σ (mkKws s.fnArgs consts []) flat (stExec st) false hin hσne,
         runShuffled_eq g _ σ _ (by rw [hlen]; exact h)]
       simp [applyPerm, List.getD_eq_getElem?_getD, List.getElem?_map]
     cases st with
